@@ -9,6 +9,11 @@ Two constructed classes: (cls=vec) elements of a user class with the "0 + v is v
 __add__ / __iadd__ possibly returning an operand) and an in-place __iadd__, through Sum / Fold / Flatten / flatten() /
 Group(Sum()) with init in {int, float, counting int}; (cls=unreg) an element that cannot be iterated, met WHILE folding
 (by the lazy sub-spec Iter([T]) or inside op), next to the eager spelling [[T]] and to clean controls.
+Sub-check plainop: Fold / Group(Fold) with op given as a named function of the operator module (add, concat, mul, or_, and_,
+sub, xor and their in-place siblings) over accumulators list / deque / dict / OrderedDict / set / a class whose operator
+pairs mean different things / immutable controls, with init handing out one prepared object on every call, a new equal
+object per call, or the bare type; elements of the matching type, of a type only the in-place sibling accepts, or of a
+type both refuse (see the comment above PLAIN_OPS).
 
 Oracle: functools.reduce / sum / itertools.chain.from_iterable / dict.update.  For cls=vec the plain reduction is the one
 builtins.sum performs (operator.add, never in place) on an independently built copy; the result is an input element
@@ -32,7 +37,9 @@ from .. import targets as tg
 PROPERTY = 'C15'
 RULE = ('element sequences of a drawn element type with a type-compatible (p~0.9) init/op, wrapped as list/tuple/generator/set, '
         'optionally behind a sub-spec; each spec object is evaluated 2-3 times on fresh copies of the data. '
-        'Non-trivial = >= 2 elements of container type, or levels >= 2, or a counting factory with repeated evaluation.')
+        'Non-trivial = >= 2 elements of container type, or levels >= 2, or a counting factory with repeated evaluation. '
+        'plainop: accumulator type x named operator x init style (one shared object / new per call / type) x element shape; '
+        'non-trivial = one of the constructed hazards (shared start, wider element, distinct operator pair) or >= 2 elements folded.')
 ASSUMPTIONS = [
     'reference: functools.reduce(op, iter(x), init()), itertools.chain.from_iterable, dict.update',
     'floats are dyadic rationals with few elements, so float arithmetic is exact and == is a sound comparison',
@@ -43,6 +50,10 @@ ASSUMPTIONS = [
     '(what Group-mode aggregation returns for no item at all is not part of the statement)',
     'cls=unreg: glom(x, [T]) on a value that cannot be iterated raises UnregisteredTarget (documented); the reference raises '
     'its own marker exception there and the check demands UnregisteredTarget and not FoldError from glom',
+    'plainop: the op that was given is the op of the reduction: a named plain operator (operator.add, or_, mul, ...) never '
+    'writes into its left operand, so an init that returns the same prepared object on every call is legitimate, stays as it '
+    'was, and the result is that object only where functools.reduce returns it (no element folded); in-place operators are '
+    'generated only with an init that makes a new start value per call.  Group(Fold(T, init, op)) is given >= 1 item.',
 ]
 
 
@@ -647,6 +658,333 @@ def check(recipe, ctx):
     ctx.outcome([kind, repr(spec)[:80], repr(results[0])[:80] if results else None])
 
 
+# ---------------------------------------------------------------------------
+# sub-check plainop: Fold with op given as a NAMED operator function
+#
+# "Fold(subspec, init, op) equals functools.reduce(op, iterate(glom(t, subspec)), init())" - for the op that was given.
+# Python's operator module has every binary operator twice: a + b (operator.add: a new object, the operands untouched)
+# and a += b (operator.iadd: may write into a, and for the built-in containers accepts more right operands than + does).
+# The two are different functions, and which one the caller named decides
+#   * whether a start value that outlives the evaluation (init=lambda: PREPARED) is written into,
+#   * whether two evaluations can return one object,
+#   * whether list + tuple / deque + list / dict | [(k, v)] is a TypeError,
+#   * which method of a class that gives + and += different meanings runs.
+# Constructed classes: (shared) init hands out one prepared mutable object on every call and op is a plain operator;
+# (wider) an element of a type the in-place sibling of op would accept and op itself refuses; (distinct) an accumulator
+# class whose every operator pair (+ / +=, * / *=, | / |=, & / &=, - / -=, ^ / ^=) leaves different marks; controls:
+# the in-place operators (fresh start values only), immutable accumulators, elements both forms refuse.
+# Oracle: functools.reduce(op, elements, init()) in an independently built reference world (own start object, own
+# elements), compared by value, by exception class, by the state of the start object afterwards, by the number of init()
+# calls and by the identity pattern (the result is the start object / an element / an earlier result exactly where the
+# reference reduction's is).
+
+PLAIN_OPS = {'add': operator.add, 'concat': operator.concat, 'mul': operator.mul, 'or_': operator.or_,
+             'and_': operator.and_, 'sub': operator.sub, 'xor': operator.xor}
+INPLACE_OPS = {'iadd': operator.iadd, 'iconcat': operator.iconcat, 'imul': operator.imul, 'ior': operator.ior,
+               'iand': operator.iand, 'isub': operator.isub, 'ixor': operator.ixor}
+INPLACE_OF = {'add': 'iadd', 'concat': 'iconcat', 'mul': 'imul', 'or_': 'ior', 'and_': 'iand', 'sub': 'isub', 'xor': 'ixor'}
+NAMED_OPS = dict(PLAIN_OPS, **INPLACE_OPS)
+
+
+class Dist(object):
+    """accumulator class for which every operator and its in-place sibling mean different things: a <op> v is a NEW
+    object with (op, v) appended to the log, a <op>= v writes (op=, v) into a itself"""
+    def __init__(self, log=()):
+        self.log = tuple(log)
+
+    def __eq__(self, other):
+        return type(other) is type(self) and self.log == other.log
+
+    def __ne__(self, other):
+        return not self == other
+
+    __hash__ = None
+
+    def __repr__(self):
+        return 'Dist(%r)' % (self.log,)
+
+
+def _dist_methods():
+    def plain(sym):
+        def method(self, v):
+            return Dist(self.log + ((sym, v),))
+        return method
+
+    def inplace(sym):
+        def method(self, v):
+            self.log = self.log + ((sym + '=', v),)
+            return self
+        return method
+    for name, sym in (('add', '+'), ('mul', '*'), ('or', '|'), ('and', '&'), ('sub', '-'), ('xor', '^')):
+        setattr(Dist, '__%s__' % name, plain(sym))
+        setattr(Dist, '__i%s__' % name, inplace(sym))
+
+
+_dist_methods()
+
+# accumulator type -> (plain operators it supports, element tags both + and += take, element tags that only the
+# in-place sibling takes ("wider"), element tags both refuse)
+PO_ACCS = {
+    'list': (['add', 'add', 'concat', 'mul'], {'add': ['list'], 'concat': ['list'], 'mul': ['n']},
+             {'add': ['tuple', 's', 'dict', 'set', 'fset', 'deque'], 'concat': ['tuple', 's', 'dict', 'deque']}, ['i']),
+    'deque': (['add', 'add', 'mul'], {'add': ['deque'], 'mul': ['n']}, {'add': ['list', 'tuple', 's', 'set']}, ['i']),
+    'dict': (['or_'], {'or_': ['dict']}, {'or_': ['pairs']}, ['list', 'i']),
+    'odict': (['or_'], {'or_': ['dict', 'odict']}, {'or_': ['pairs']}, ['list', 'i']),
+    'set': (['or_', 'and_', 'sub', 'xor'], dict.fromkeys(['or_', 'and_', 'sub', 'xor'], ['set', 'fset']), {}, ['list', 'tuple']),
+    'dist': (['add', 'add', 'mul', 'or_', 'and_', 'sub', 'xor'],
+             dict.fromkeys(['add', 'mul', 'or_', 'and_', 'sub', 'xor'], ['i', 's']), {}, []),
+    # immutable accumulators: + and += are the same operation (controls)
+    'tuple': (['add', 'concat', 'mul'], {'add': ['tuple'], 'concat': ['tuple'], 'mul': ['n']}, {}, ['list', 'i']),
+    'int': (['add', 'mul', 'sub'], dict.fromkeys(['add', 'mul', 'sub'], ['i']), {}, ['s', 'list']),
+    'str': (['add', 'concat'], {'add': ['s'], 'concat': ['s']}, {}, ['i', 'list']),
+    'fset': (['or_', 'and_'], {'or_': ['fset', 'set'], 'and_': ['fset', 'set']}, {}, ['list']),
+}
+PO_MUTABLE = ('list', 'deque', 'dict', 'odict', 'set', 'dist')
+PO_TYPES = {'list': list, 'deque': collections.deque, 'dict': dict, 'odict': collections.OrderedDict, 'set': set,
+            'tuple': tuple, 'int': int, 'str': str, 'fset': frozenset}
+
+
+def po_atom(draw):
+    return draw(st.sampled_from([['i', 0], ['i', 1], ['i', 2], ['i', 7], ['s', 'a'], ['s', 'b'], ['s', 'xy']]))
+
+
+def po_value(draw, tag):
+    """recipe of one value of the given tag; the members are atoms"""
+    if tag == 'n':
+        return ['i', draw(st.sampled_from([0, 1, 1, 2, 2, 3]))]
+    if tag == 'i':
+        return ['i', draw(st.sampled_from([0, 1, 2, 5, -3]))]
+    if tag == 's':
+        return ['s', draw(st.sampled_from(['', 'a', 'bc', 'k']))]
+    k = draw(st.sampled_from([0, 1, 1, 2, 2, 3]))
+    if tag in ('dict', 'odict', 'pairs'):
+        keys = draw(st.lists(st.sampled_from(['a', 'b', 'c', 'k']), min_size=min(k, 3), max_size=min(k, 3), unique=True))
+        return [tag, [[key, po_atom(draw)] for key in keys]]
+    return [tag, [po_atom(draw) for _ in range(k)]]
+
+
+def po_build(r):
+    tag = r[0]
+    if tag in ('i', 's'):
+        return r[1]
+    if tag in ('dict', 'odict'):
+        d = PO_TYPES[tag]()
+        for k, v in r[1]:
+            d[k] = po_build(v)
+        return d
+    if tag == 'pairs':
+        return [(k, po_build(v)) for k, v in r[1]]
+    if tag == 'dist':
+        return Dist([(sym, po_build(v)) for sym, v in r[1]])
+    return PO_TYPES[tag](po_build(v) for v in r[1])
+
+
+def po_state(v):
+    """identity-free canonical state (types and contents) of the values of this sub-check"""
+    if isinstance(v, Dist):
+        return ('Dist', [(sym, po_state(x)) for sym, x in v.log])
+    if isinstance(v, dict):
+        return (type(v).__name__, [(k, po_state(x)) for k, x in v.items()])
+    if isinstance(v, (set, frozenset)):
+        return (type(v).__name__, sorted(repr(po_state(x)) for x in v))
+    if isinstance(v, (list, tuple, collections.deque)):
+        return (type(v).__name__, [po_state(x) for x in v])
+    return (type(v).__name__, repr(v))
+
+
+class StartFactory(object):
+    """init: hands out the prepared start value - a new equal object per call, or (shared) one object every time, which
+    is legitimate with an operator that does not write into its left operand"""
+    def __init__(self, recipe):
+        self.recipe = recipe
+        self.shared = recipe['initstyle'] == 'shared'
+        self.obj = po_build(recipe['start']) if self.shared else None
+        self.calls = 0
+
+    def __call__(self):
+        self.calls += 1
+        return self.obj if self.shared else po_build(self.recipe['start'])
+
+    def __repr__(self):
+        return '<%s start %r>' % ('the one' if self.shared else 'a new', po_build(self.recipe['start']))
+
+
+def gen_plainop(draw):
+    acc = draw(st.sampled_from(['list'] * 5 + ['deque'] * 3 + ['dict'] * 2 + ['odict'] * 2 + ['set'] * 4 + ['dist'] * 4 +
+                               ['tuple', 'int', 'str', 'fset']))
+    ops, compat, wider, refused = PO_ACCS[acc]
+    plain = op = draw(st.sampled_from(ops))
+    initstyle = draw(st.sampled_from(['shared', 'shared', 'fresh', 'fresh', 'type']))
+    if acc == 'dist' and initstyle == 'type':
+        initstyle = 'fresh'
+    if initstyle != 'shared' and draw(st.sampled_from([0, 0, 0, 1])):
+        op = INPLACE_OF[op]           # the operator that does write into its left operand: only into a start value made for it
+    if acc == 'dist':
+        start = ['dist', [[s, po_atom(draw)] for s in draw(st.sampled_from([[], [], ['+'], ['|', '*=']]))]]
+    elif acc == 'int':
+        start = ['i', draw(st.sampled_from([0, 1, 2]))]
+    elif acc == 'str':
+        start = ['s', draw(st.sampled_from(['', 'h']))]
+    else:
+        start = po_value(draw, acc)
+    if initstyle == 'type':
+        start = {'int': ['i', 0], 'str': ['s', '']}.get(acc, [acc, []])
+    n = draw(st.sampled_from([0, 1, 2, 2, 3, 3, 4]))
+    shape = draw(st.sampled_from(['compat', 'compat', 'wider', 'wider', 'refused']))
+    odd = wider.get(plain, []) if shape == 'wider' else (refused if shape == 'refused' else [])
+    elems = []
+    for _ in range(n):
+        elems.append(po_value(draw, draw(st.sampled_from(compat[plain]))))
+    if odd:
+        n_odd = draw(st.sampled_from([1, 1, 2]))
+        for _ in range(n_odd):
+            elems.insert(draw(st.sampled_from(range(len(elems) + 1))), po_value(draw, draw(st.sampled_from(odd))))
+    kind = draw(st.sampled_from(['fold', 'fold', 'fold', 'group-fold']))
+    if kind == 'group-fold' and not elems:
+        kind = 'fold'
+    return {'cls': 'plainop', 'kind': kind, 'acc': acc, 'op': op, 'initstyle': initstyle, 'start': start, 'elems': elems,
+            'container': draw(st.sampled_from(['list', 'list', 'tuple', 'gen'])),
+            'subspec': None if kind == 'group-fold' else draw(st.sampled_from([None, None, 'key', 'listspec'])),
+            'stop_at': draw(st.sampled_from(range(7))), 'skip_at': draw(st.sampled_from(range(7))),
+            'repeat': draw(st.sampled_from([2, 2, 3])), 'same_data': draw(st.sampled_from([True, False]))}
+
+
+def po_known_index(v, start, elems, results):
+    """which object of its world a result is: ('start',) / ('elem', i) / ('result', j) / None for a new object.
+    Immutable values carry no identity worth comparing (Python may or may not share them)."""
+    if isinstance(v, (int, float, str, tuple, frozenset, type(None))):
+        return None
+    if start is not None and v is start:
+        return ('start',)
+    for i, x in enumerate(elems):
+        if v is x:
+            return ('elem', i)
+    for j, x in enumerate(results):
+        if x[0] == 'ok' and v is x[1]:
+            return ('result', j)
+    return None
+
+
+def check_plainop(recipe, ctx):
+    kind, acc, opname = recipe['kind'], recipe['acc'], recipe['op']
+    ops, compat, wider, refused = PO_ACCS[acc]
+    inplace = opname in INPLACE_OPS
+    plain = [k for k, v in INPLACE_OF.items() if v == opname][0] if inplace else opname
+    folded = apply_listspec(recipe, recipe['elems']) if recipe['subspec'] == 'listspec' else recipe['elems']
+    # hazards, decided from the recipe alone
+    shared = (not inplace and acc in PO_MUTABLE and recipe['initstyle'] == 'shared' and len(folded) >= 1)
+    wide = (not inplace and any(e[0] in wider.get(plain, []) for e in folded))
+    distinct = acc == 'dist' and len(folded) >= 1
+    ctx.label('kind-' + kind, 'po-acc-' + acc, 'po-op-' + opname, 'po-init-' + recipe['initstyle'],
+              'container-' + recipe['container'], 'subspec-%s' % recipe['subspec'])
+    if shared:
+        ctx.label('po-shared-start', 'po-shared-start-' + opname, 'po-shared-start-' + acc)
+    if wide:
+        ctx.label('po-wider-elem', 'po-wider-elem-' + opname, 'po-wider-elem-' + acc)
+    if distinct:
+        ctx.label('po-distinct', 'po-distinct-' + opname, 'po-distinct-given-' + ('inplace' if inplace else 'plain'))
+    if (shared or wide or distinct) and kind == 'group-fold':
+        ctx.label('po-hazard-group-fold')
+    if inplace:
+        ctx.label('po-inplace-control')
+    if not (shared or wide or distinct or inplace):
+        ctx.label('po-control')
+    ctx.nontrivial(shared or wide or distinct or len(folded) >= 2)
+
+    op = NAMED_OPS[opname]
+
+    def world():
+        init = PO_TYPES[acc] if recipe['initstyle'] == 'type' else StartFactory(recipe)
+        return {'init': init, 'start': getattr(init, 'obj', None), 'results': [], 'elems': None}
+
+    def elements(w):
+        if w['elems'] is None or not recipe['same_data'] or recipe['container'] == 'gen':
+            w['elems'] = [po_build(e) for e in recipe['elems']]
+        src = w['elems']
+        c = recipe['container']
+        return (src if c == 'list' else tuple(src) if c == 'tuple' else (x for x in src)), src
+
+    ref, glm = world(), world()
+    item_spec = None
+    for rep in range(recipe['repeat']):
+        # reference world: functools.reduce(op, iterate(glom(t, subspec)), init())
+        rdata, rsrc = elements(ref)
+        rcalls = getattr(ref['init'], 'calls', None)
+        try:
+            items = list(rdata)
+            if recipe['subspec'] == 'listspec':
+                items = apply_listspec(recipe, items)
+            exp = ('ok', functools.reduce(op, items, ref['init']()))
+        except Exception as e:
+            exp = ('err', e)
+        rcalls = None if rcalls is None else ref['init'].calls - rcalls
+        # glom world: one spec object for all evaluations (the item spec of a list sub-spec counts: a new one each time)
+        data, src = elements(glm)
+        before = po_state(src)
+        sub = sub_spec(recipe)
+        if rep == 0 or recipe['subspec'] == 'listspec':
+            fold = Fold(T if sub is None else sub, init=glm['init'], op=op)
+            spec = Group(fold) if kind == 'group-fold' else fold
+        target = {'k': data} if recipe['subspec'] == 'key' else data
+        gcalls = getattr(glm['init'], 'calls', None)
+        where = '%s spec=%r elems=%r container=%s evaluation #%d' % (kind, spec, src, recipe['container'], rep + 1)
+        try:
+            got = ('ok', glom.glom(target, spec))
+        except Exception as e:
+            got = ('err', e)
+        gcalls = None if gcalls is None else glm['init'].calls - gcalls
+        ctx.label('exp-' + exp[0])
+        if exp[0] == 'err':
+            if got[0] != 'err':
+                raise Mismatch('missing-error', '%s: the reduction raises %r, glom returned %r' % (where, exp[1], got[1]))
+            if isinstance(got[1], FoldError):
+                raise Mismatch('folderror-for-iterable-target', '%s: the reduction raises %r, glom raised FoldError: %r'
+                               % (where, exp[1], got[1]))
+            if not isinstance(got[1], type(exp[1])):
+                raise Mismatch('wrong-error-class', '%s: expected %r, got %r' % (where, exp[1], got[1]))
+        elif got[0] == 'err':
+            raise Mismatch('spurious-error', '%s: expected %r, glom raised %s: %r'
+                           % (where, exp[1], type(got[1]).__name__, got[1]))
+        else:
+            e, g = exp[1], got[1]
+            if type(e) is not type(g) or po_state(e) != po_state(g):
+                raise Mismatch('wrong-value', '%s: expected %r (%s), got %r (%s)'
+                               % (where, e, type(e).__name__, g, type(g).__name__))
+            # "results of separate evaluations share no state": the result is the start value / an element / an earlier
+            # result exactly where the plain reduction's is (reduce over no element returns init() itself)
+            ki, kg = (po_known_index(e, ref['start'], rsrc, ref['results']),
+                      po_known_index(g, glm['start'], src, glm['results']))
+            if ki != kg:
+                def name(k):
+                    if k is None:
+                        return 'a new object'
+                    if k[0] == 'start':
+                        return 'the object init() returns every time'
+                    return 'input element %d' % k[1] if k[0] == 'elem' else 'the result of evaluation #%d' % (k[1] + 1)
+                raise Mismatch('result-aliases-input' if kg and kg[0] == 'elem' else 'results-share-state',
+                               '%s: the result is %s; that of the plain reduction is %s' % (where, name(kg), name(ki)))
+        # no element of the input is ever mutated
+        if po_state(src) != before:
+            raise Mismatch('input-mutated', '%s: elements afterwards %r' % (where, src))
+        # the value init() hands out is written into exactly where the named operator does that
+        if glm['start'] is not None and po_state(glm['start']) != po_state(ref['start']):
+            raise Mismatch('init-value-mutated', '%s: the object returned by init() is now %r; after the plain reduction it is %r'
+                           % (where, glm['start'], ref['start']))
+        # init() called afresh, once per evaluation
+        if gcalls is not None and gcalls != rcalls:
+            raise Mismatch('init-calls', '%s: init() called %d times in this evaluation, by the plain reduction %d times'
+                           % (where, gcalls, rcalls))
+        ref['results'].append(exp)
+        glm['results'].append(got)
+        # an earlier result is not changed by a later evaluation
+        for j, (re_, rg) in enumerate(zip(ref['results'], glm['results'])):
+            if re_[0] == 'ok' and rg[0] == 'ok' and po_state(re_[1]) != po_state(rg[1]):
+                raise Mismatch('earlier-result-changed', '%s: the result of evaluation #%d is now %r (plain reduction: %r)'
+                               % (where, j + 1, rg[1], re_[1]))
+    last = glm['results'][-1]
+    ctx.outcome([kind, repr(spec)[:80], last[0], repr(last[1])[:80]])
+
+
 SUBS = [
     Sub('reduce', check, gen=gen, quick=7000, thorough=20000,
         floors={'exp-ok': 0.5, 'kind-flatten_fn': 0.05, 'kind-merge': 0.04, 'non-iterable-target': 0.02,
@@ -657,4 +995,21 @@ SUBS = [
                 'vec-radd0': 0.012, 'vec-radd0-rebind': 0.012, 'vec-add-operand': 0.012, 'vec-iadd-operand': 0.012,
                 'cls-unreg': 0.05, 'unreg-lazy-subspec-bad': 0.015, 'unreg-op-bad': 0.015, 'unreg-eager-subspec-bad': 0.006,
                 'unreg-lazy-subspec-clean': 0.003, 'unreg-op-clean': 0.003}),
+    Sub('plainop', check_plainop, gen=gen_plainop, quick=2000, thorough=8000,
+        floors={'exp-ok': 0.8, 'exp-err': 0.25, 'po-control': 0.2, 'po-inplace-control': 0.07, 'kind-group-fold': 0.09,
+                'po-hazard-group-fold': 0.045,
+                # init hands out one prepared mutable object, op is a plain operator, >= 1 element is folded
+                'po-shared-start': 0.13, 'po-shared-start-add': 0.03, 'po-shared-start-or_': 0.03, 'po-shared-start-mul': 0.01,
+                'po-shared-start-concat': 0.01, 'po-shared-start-and_': 0.008, 'po-shared-start-sub': 0.008,
+                'po-shared-start-xor': 0.006, 'po-shared-start-list': 0.034, 'po-shared-start-deque': 0.012,
+                'po-shared-start-dict': 0.014, 'po-shared-start-odict': 0.01, 'po-shared-start-set': 0.02,
+                'po-shared-start-dist': 0.02,
+                # an element that only the in-place sibling of the plain operator accepts
+                'po-wider-elem': 0.055, 'po-wider-elem-add': 0.023, 'po-wider-elem-concat': 0.006, 'po-wider-elem-or_': 0.02,
+                'po-wider-elem-list': 0.025, 'po-wider-elem-deque': 0.006, 'po-wider-elem-dict': 0.012,
+                'po-wider-elem-odict': 0.008,
+                # accumulator class whose operator pairs mean different things
+                'po-distinct': 0.045, 'po-distinct-given-plain': 0.035, 'po-distinct-given-inplace': 0.008,
+                'po-distinct-add': 0.01, 'po-distinct-mul': 0.005, 'po-distinct-or_': 0.0045, 'po-distinct-and_': 0.003,
+                'po-distinct-sub': 0.004, 'po-distinct-xor': 0.002}),
 ]
